@@ -186,6 +186,7 @@ type TraceEvent struct {
 	Mut  bool      `json:"mut"`
 	Post *HostView `json:"post,omitempty"`
 	Val  string    `json:"val,omitempty"`
+	Chg  bool      `json:"chg,omitempty"` // sql: the statement changed the server's state
 }
 
 // MyWorld is the set of servers plus the client workload bookkeeping.
@@ -941,6 +942,10 @@ func (w *MyWorld) execute(inst, host, q string, lockWait int) (*MyResult, *MyErr
 		w.mu.Unlock()
 		return nil, nil, true
 	}
+	var before string
+	if si.mut {
+		before = fmt.Sprintf("%+v", h.View())
+	}
 	res, myerr := w.applyLocked2(h, si, inst)
 	r := "ok"
 	if myerr != nil {
@@ -950,6 +955,7 @@ func (w *MyWorld) execute(inst, host, q string, lockWait int) (*MyResult, *MyErr
 	if si.mut {
 		v := h.View()
 		ev.Post = &v
+		ev.Chg = fmt.Sprintf("%+v", v) != before
 		h.Stmts = append(h.Stmts, fmt.Sprintf("%s:%s(%s)=%s", inst, si.kind, si.arg, r))
 	}
 	w.logEv(ev)
